@@ -484,21 +484,29 @@ def selectCertificate (ss : Settings) (sc : ServerCfg) (o : Offer) (suites : Lis
       checkServerCurve sc o v
       pure (cipher, sig)
 
+/-- TLS 1.3 groups the server accepts (its key shares, curves and FFDHE groups; RFC 5639 brainpool code
+    points are not TLS 1.3 groups) -/
+def acceptable13 (ss : Settings) : List Nat :=
+  groupIdsOf ((ss.keyShares ++ ss.eccCurves ++ ss.dhGroups).filter (!isBrainpool ·))
+
+/-- the key shares the server works with and whether a HelloRetryRequest was needed; none = no group -/
+def hrrShares (ss : Settings) (o : Offer) : Option (List Nat × Bool) :=
+  match (acceptable13 ss).find? (o.keyShares.contains ·) with
+  | some _ => some (o.keyShares, false)
+  | none =>
+    match (acceptable13 ss).find? ((o.groups.getD []).contains ·) with
+    | some g => some ([g], true)
+    | none => none
+
 /-- TLS 1.3 group choice: HelloRetryRequest decision of `_serverGetClientHello`, then the loop at the
     start of `_serverTLS13Handshake`; returns (group, hrr) -/
-def tls13Group (ss : Settings) (o : Offer) : Outcome (Nat × Bool) := do
-  let names := ss.keyShares ++ ss.eccCurves ++ ss.dhGroups
-  let acceptable := groupIdsOf (names.filter (!isBrainpool ·))
-  let (shares, hrr) ←
-    (match acceptable.find? (o.keyShares.contains ·) with
-     | some _ => (pure (o.keyShares, false) : Outcome (List Nat × Bool))
-     | none =>
-       match acceptable.find? ((o.groups.getD []).contains ·) with
-       | some g => pure ([g], true)
-       | none => Outcome.alert .server "handshake_failure")
-  match (groupIdsOf names).find? (shares.contains ·) with
-  | some g => pure (g, hrr)
-  | none => Outcome.alert .server "internal_error"
+def tls13Group (ss : Settings) (o : Offer) : Outcome (Nat × Bool) :=
+  match hrrShares ss o with
+  | none => Outcome.alert .server "handshake_failure"
+  | some sh =>
+    match (groupIdsOf (ss.keyShares ++ ss.eccCurves ++ ss.dhGroups)).find? (sh.1.contains ·) with
+    | some g => pure (g, sh.2)
+    | none => Outcome.alert .server "internal_error"
 
 def ffBitsOf (g : Nat) : Nat := ((ffBits.find? (·.1 == g)).map (·.2)).getD 0
 
